@@ -480,6 +480,7 @@ def execute(history):
     pool = Pool(setup)
     creators = {}
     tainted = set()
+    obs = []
     for opi, op in enumerate(history["ops"]):
         kind = op["op"]
         if kind.startswith("new_"):
@@ -504,6 +505,7 @@ def execute(history):
                     # kind its engine does not accept): it is not used any further
                     tainted.add(op["obj"])
                 bump("op:" + kind + (":" + op["fn"] if "fn" in op else ""))
+                obs.append([opi, core.digest_value(live)])
                 # 1. inputs untouched
                 ch = pool.changed()
                 if ch is not None:
@@ -536,7 +538,7 @@ def execute(history):
             add({"class": "hang", "detail": "%s did not return within %d s" % (kind, OP_WALL)}, opi)
             break
     return {"violations": viols[:4], "counters": cnt, "nontrivial": sessions.sessions_interleaved(history),
-            "digest": core.hash_obj([[v["class"], v["op"]] for v in viols])}
+            "digest": core.hash_obj([obs, [[v["class"], v["op"]] for v in viols]])}
 
 
 def signature(history, viol):
